@@ -476,6 +476,7 @@ def run(chk, rng, n: int, tier: str = "quick"):  # noqa: C901, PLR0912, PLR0915
                             "cse": cse, "a": a, "b": angs2[k], "p": PR[k].tolist(),
                             "observed": np.asarray(V)[k].tolist() if V.ndim == 2 else None})  # noqa: PLR2004
     run_compound(chk, rng, n, bad)
+    run_wrapped(chk, rng, n, bad, tier)
     return bad
 
 
@@ -754,3 +755,244 @@ def run_compound(chk, rng, n: int, bad: list):  # noqa: C901, PLR0912, PLR0915
             if not np.all(np.isfinite(M[k])) or d > tol_e:
                 bad.append({"what": "BoostMatrix(ArrayMultiplication(BoostMatrix(q), p)) code is not the boost matrix of the boosted momentum",
                             "cse": cse, "p": Pc[k].tolist(), "q": Qc[k].tolist(), "max_abs_diff": float(d), "tolerance": tol_e})
+
+
+class _TimeLimit:
+    """wall-clock cap for one case (SIGALRM; main thread only — a no-op elsewhere)"""
+
+    class Exceeded(Exception):
+        pass
+
+    def __init__(self, seconds: float):
+        self.seconds = seconds
+        self.armed = False
+
+    def __enter__(self):
+        import signal
+        import threading
+
+        if threading.current_thread() is threading.main_thread() and hasattr(signal, "setitimer"):
+            def handler(signum, frame):
+                raise _TimeLimit.Exceeded
+
+            self.old = signal.signal(signal.SIGALRM, handler)
+            signal.setitimer(signal.ITIMER_REAL, self.seconds)
+            self.armed = True
+        return self
+
+    def __exit__(self, *exc):
+        import signal
+
+        if self.armed:
+            signal.setitimer(signal.ITIMER_REAL, 0)
+            signal.signal(signal.SIGALRM, self.old)
+        return False
+
+
+def run_wrapped(chk, rng, n: int, bad: list, tier: str = "quick"):  # noqa: C901, PLR0912, PLR0915
+    """WRAPPED momenta: the momentum argument of `BoostMatrix` is an expression tree — space inversion
+    applied several times, inversions inside and around sums, a momentum boosted by another boost (and
+    inverted before / after that). For each such argument A(p[, q]) the real lambdified code (cse off / on) is
+    evaluated and judged on the statement of the property:
+
+    * `BoostMatrix(A)` is the textbook boost (60 digits) at the VALUE of A, a Lorentz matrix with det 1;
+    * `ArrayMultiplication(BoostMatrix(A), A)` is `(m, 0, 0, 0)`;
+    * `MatrixMultiplication(BoostMatrix(NegativeMomentum(A)), BoostMatrix(A))` is the unit matrix;
+    * the code agrees with the library's own `BoostMatrix(A).as_explicit()`;
+    * the code of A itself is the value of A (exactly, where only the metric and sums are involved).
+
+    Every case has a wall-clock cap (nested arguments make the printed code grow geometrically)."""
+    import time
+
+    import mpmath
+    import numpy as np
+    import sympy as sp
+
+    from ampform.kinematics import lorentz as lz
+    from ampform.sympy._array_expressions import ArrayMultiplication, ArraySum, MatrixMultiplication
+
+    mp = mpmath.mp
+    eta = mp.matrix(4, 4)
+    for i in range(4):
+        eta[i, i] = 1 if i == 0 else -1
+    p = lz.FourMomentumSymbol("p", shape=[])
+    q = lz.FourMomentumSymbol("q", shape=[])
+    N, B = lz.NegativeMomentum, lz.BoostMatrix
+    nev = max(4, min(n // 20, 60))
+    cap = 120.0 if tier == "quick" else 600.0
+    P = np.array([momentum(rng, (-2.0, 1.5))[0] for _ in range(nev)])
+    Q = np.array([momentum(rng, (-2.0, 1.0))[0] for _ in range(nev)])
+    flip = np.array([1.0, -1.0, -1.0, -1.0])
+
+    def mp_vec(v):
+        return mp.matrix([mp.mpf(float(c)) for c in v])
+
+    def boosted_by(qv, pv):
+        """(B(q) p in 60 digits, gamma_q, relative error bound of the float64 result)"""
+        Lq, gq, _ = mp_boost([float(c) for c in qv], mp)
+        v = Lq * mp_vec(pv)
+        gqf = float(gq)
+        return v, gqf, gamma_err(gqf) * gqf * gqf * float(mp.mpf(float(pv[0])) * gq / v[0])
+
+    # name -> (expression A of the argument, value of A for event k -> (mp 4-vector, relative error of the float64
+    #          value of A), exact?, expressions evaluated WITHOUT cse, expressions evaluated WITH cse);
+    # expressions: A itself, B = BoostMatrix(A), rest = B(A)·A, inv = B(NegativeMomentum(A))·B(A).
+    # Without cse the printer repeats a nested argument inside every `len(..)` of the metric arrays and in every
+    # entry of a boost matrix: the source grows by a factor ~17 per inversion and ~20 per boost (8 MB for three
+    # inversions), so the deeper expressions are evaluated with cse only (thorough: one level deeper).
+    ALL = ("A", "B", "rest", "inv")
+    AB = ("A", "B")
+    thorough = tier != "quick"
+    S, D = P + Q, np.column_stack([P[:, 0] + Q[:, 0], P[:, 1:] - Q[:, 1:]])
+    args1 = {
+        "NegativeMomentum(NegativeMomentum(p))": (N(N(p)), lambda k: (mp_vec(P[k]), 0.0), True, ALL if thorough else AB, ALL),
+        "NegativeMomentum(NegativeMomentum(NegativeMomentum(p)))": (N(N(N(p))), lambda k: (mp_vec(P[k] * flip), 0.0), True,
+                                                                    AB if thorough else (), ALL),
+        "NegativeMomentum applied four times to p": (N(N(N(N(p)))), lambda k: (mp_vec(P[k]), 0.0), True, (), ALL),
+    }
+    args2 = {
+        "ArraySum(NegativeMomentum(p), NegativeMomentum(q))": (ArraySum(N(p), N(q)), lambda k: (mp_vec(S[k] * flip), 0.0), True,
+                                                               ALL if thorough else AB, ALL),
+        "ArraySum(p, NegativeMomentum(q))": (ArraySum(p, N(q)), lambda k: (mp_vec(D[k]), 0.0), True,
+                                             ALL if thorough else AB, ALL),
+        "NegativeMomentum(ArraySum(NegativeMomentum(p), q))": (N(ArraySum(N(p), q)), lambda k: (mp_vec(D[k]), 0.0), True,
+                                                               ("A", "B", "rest") if thorough else (), ALL),
+        "NegativeMomentum(NegativeMomentum(ArraySum(p, q)))": (N(N(ArraySum(p, q))), lambda k: (mp_vec(S[k]), 0.0), True,
+                                                               ("A", "B", "rest") if thorough else (), ALL),
+        "ArraySum(NegativeMomentum(NegativeMomentum(p)), q)": (ArraySum(N(N(p)), q), lambda k: (mp_vec(S[k]), 0.0), True,
+                                                               ("A", "B", "rest") if thorough else (), ALL),
+        # boosted momenta: `doit()` of a boost of a boosted momentum already takes seconds (it walks the tree, not
+        # the DAG), so the quick tier keeps one of them, with cse, and leaves rest frame / inverse to the thorough tier
+        "ArrayMultiplication(BoostMatrix(q), NegativeMomentum(p))": (
+            ArrayMultiplication(B(q), N(p)), lambda k: (lambda v, g, r: (v, r))(*boosted_by(Q[k], P[k] * flip)), False,
+            AB if thorough else ("A",), ALL if thorough else AB),
+    }
+    if thorough:
+        args2.update({
+            "NegativeMomentum(ArrayMultiplication(BoostMatrix(q), p))": (
+                N(ArrayMultiplication(B(q), p)),
+                lambda k: (lambda v, g, r: (mp.matrix([v[0], -v[1], -v[2], -v[3]]), r))(*boosted_by(Q[k], P[k])), False,
+                AB, ALL),
+            "ArrayMultiplication(BoostMatrix(NegativeMomentum(q)), p)": (
+                ArrayMultiplication(B(N(q)), p), lambda k: (lambda v, g, r: (v, r))(*boosted_by(Q[k] * flip, P[k])), False,
+                AB, ALL),
+            "ArrayMultiplication(BoostMatrix(NegativeMomentum(NegativeMomentum(q))), p)": (
+                ArrayMultiplication(B(N(N(q))), p), lambda k: (lambda v, g, r: (v, r))(*boosted_by(Q[k], P[k])), False,
+                ("A",), ALL),
+        })
+    one = mp.eye(4)
+    timings = {}
+    for table, syms, arrays in ((args1, [p], [P]), (args2, [p, q], [P, Q])):
+        for aname, (A, value, exact, without_cse, with_cse) in table.items():
+            t_case = time.time()
+            try:
+                with _TimeLimit(cap):
+                    try:
+                        fx = sp.lambdify(syms, B(A).as_explicit().doit(), "numpy", cse=True)
+                        with np.errstate(all="ignore"):
+                            rows = fx(*arrays)
+                        EX = np.empty((nev, 4, 4), dtype=complex)
+                        for i in range(4):
+                            for j in range(4):
+                                EX[:, i, j] = np.broadcast_to(np.asarray(rows[i][j], dtype=complex), (nev,))
+                    except _TimeLimit.Exceeded:
+                        raise
+                    except Exception as e:  # noqa: BLE001
+                        bad.append({"what": "as_explicit() of BoostMatrix with a wrapped momentum could not be evaluated",
+                                    "argument": aname, "error": f"{type(e).__name__}: {e}"[:300]})
+                        EX = None
+                    for cse in (False, True):
+                        exprs = {
+                            "A": A,
+                            "B": B(A),
+                            "rest": ArrayMultiplication(B(A), A),
+                            "inv": MatrixMultiplication(B(N(A)), B(A)),
+                        }
+                        wanted = with_cse if cse else without_cse
+                        if not wanted:
+                            continue
+                        out = {}
+                        for key, ex in exprs.items():
+                            if key not in wanted:
+                                continue
+                            try:
+                                f = sp.lambdify(syms, ex.doit(), "numpy", cse=cse)
+                                with np.errstate(all="ignore"):
+                                    out[key] = np.asarray(f(*arrays))
+                            except _TimeLimit.Exceeded:
+                                raise
+                            except Exception as e:  # noqa: BLE001
+                                bad.append({"what": "the generated code for a wrapped momentum raised", "argument": aname,
+                                            "expression": key, "cse": cse, "error": f"{type(e).__name__}: {e}"[:300]})
+                        shapes = {"A": (nev, 4), "B": (nev, 4, 4), "rest": (nev, 4), "inv": (nev, 4, 4)}
+                        for key in list(out):
+                            if out[key].shape != shapes[key]:
+                                bad.append({"what": "the generated code for a wrapped momentum has the wrong shape",
+                                            "argument": aname, "expression": key, "cse": cse, "shape": list(out[key].shape)})
+                                del out[key]
+                        for k in range(nev):
+                            a, rel_a = value(k)
+                            Lref, g, m = mp_boost([a[i] for i in range(4)], mp)
+                            gf, mf = float(g), float(m)
+                            # the argument's own relative error enters gamma with a factor gamma^2
+                            rel = gamma_err(gf) + 8 * gf * gf * rel_a
+                            case = {"argument": aname, "cse": cse, "p": P[k].tolist(), "event_index": k,
+                                    "argument_value": [float(a[i]) for i in range(4)]}
+                            if len(syms) == 2:  # noqa: PLR2004
+                                case["q"] = Q[k].tolist()
+                            chk.count(("wrapped", aname, cse, k))
+                            if "A" in out:
+                                got = out["A"][k]
+                                scale = abs(float(a[0]))
+                                tol_a = 0.0 if exact else SAFETY * (rel_a + EPS) * scale * 4
+                                d = max(abs(mp.mpf(float(got[i])) - a[i]) for i in range(4))
+                                if not np.all(np.isfinite(got)) or d > tol_a:
+                                    bad.append({"what": "the generated code of a wrapped momentum is not the value of that momentum",
+                                                **case, "observed": got.tolist(), "max_abs_diff": float(d), "tolerance": tol_a})
+                            if "B" not in out:
+                                continue
+                            M = out["B"][k]
+                            if not np.all(np.isfinite(M)):
+                                bad.append({"what": "BoostMatrix code with a wrapped momentum returns a non-finite entry", **case,
+                                            "observed": M.tolist()})
+                                continue
+                            L = mp_of(M, mp)
+                            tol_e = SAFETY * rel * gf + SAFETY * EPS
+                            tol_l = SAFETY * 8 * gf * gf * rel + SAFETY * EPS
+                            d = max_abs(L - Lref)
+                            if d > tol_e:
+                                bad.append({"what": "BoostMatrix code with a wrapped momentum is not the boost matrix at the value of the momentum",
+                                            **case, "max_abs_diff": float(d), "tolerance": tol_e, "observed": M.tolist(),
+                                            "expected": [[float(Lref[i, j]) for j in range(4)] for i in range(4)]})
+                            r = max_abs(L.T * eta * L - eta)
+                            if r > tol_l:
+                                bad.append({"what": "L^T eta L != eta for BoostMatrix code with a wrapped momentum", **case,
+                                            "residual": float(r), "tolerance": tol_l})
+                            dd = abs(mp.det(L) - 1)
+                            if dd > tol_l:
+                                bad.append({"what": "det BoostMatrix != 1 with a wrapped momentum", **case,
+                                            "det_minus_1": float(dd), "tolerance": tol_l})
+                            if "rest" in out:
+                                got = [float(v) for v in out["rest"][k]]
+                                tol_d = SAFETY * 4 * rel * gf * gf * mf + SAFETY * EPS * mf * gf
+                                if not all(math.isfinite(v) for v in got) or abs(got[0] - mf) > tol_d or max(abs(v) for v in got[1:]) > tol_d:
+                                    bad.append({"what": "B(A) A != (m,0,0,0) for a wrapped momentum A", **case, "observed": got,
+                                                "m": mf, "residual": max(abs(got[0] - mf), *[abs(v) for v in got[1:]]),
+                                                "tolerance": tol_d})
+                            if "inv" in out and np.all(np.isfinite(out["inv"][k])):
+                                r = max_abs(mp_of(out["inv"][k], mp) - one)
+                                if r > 2 * tol_l:
+                                    bad.append({"what": "B(NegativeMomentum(A)) B(A) != 1 for a wrapped momentum A", **case,
+                                                "residual": float(r), "tolerance": 2 * tol_l})
+                            if EX is not None:
+                                ex = EX[k]
+                                tol_x = 2 * tol_e
+                                if np.max(np.abs(ex.imag)) > 0 or not np.max(np.abs(ex.real - M)) <= tol_x:
+                                    bad.append({"what": "BoostMatrix code != as_explicit() for a wrapped momentum", **case,
+                                                "max_abs_diff": float(np.max(np.abs(ex - M))), "tolerance": tol_x})
+            except _TimeLimit.Exceeded:
+                bad.append({"what": "evaluating BoostMatrix with a wrapped momentum did not finish within the time cap",
+                            "argument": aname, "cap_seconds": cap})
+            timings[aname] = round(time.time() - t_case, 2)
+    chk.info("oracle_wrapped_momenta", {"events_per_argument": nev, "arguments": list(args1) + list(args2),
+                                        "seconds_per_argument": timings, "cap_seconds": cap})
